@@ -9,7 +9,7 @@
 //!   keys sess=<hex32> hops=<seed:scid>,..
 //!   fail sess=<hex32> hops=<seed:scid>,.. at=<i> code=<u16> data=<hex> holds=<t0,..,ti> tstep=<k|0>
 //!   failb sess=<hex32> hops=<seed:scid>,.. at=<i> code=<u16> plen=<n> legacy=<0|1> holds=<t0,..,ti>
-//!   rcpt ..  (see do_rcpt)
+//!   rcpt ..  (see do_rcpt; excess=<u32> is the route's excess_final_cltv_expiry_delta)
 //!   fulfill sess=<hex32> hops=<seed:scid>,.. holds=<t0,..>
 use std::collections::HashMap;
 
@@ -517,6 +517,8 @@ fn do_rcpt(a: &HashMap<String, String>) -> String {
 	let hash = PaymentHash(arr32(&a["hash"]));
 	let height: u32 = a["height"].parse().unwrap();
 	let k: usize = a["blinded"].parse().unwrap();
+	// the router's shadow offset: added to the last hop's delta and (blinded tails) told to the recipient
+	let excess: u32 = a.get("excess").map(|x| x.parse().unwrap()).unwrap_or(0);
 	let mut nodes = Vec::new();
 	let (mut scid, mut fee, mut cltv) = (Vec::new(), Vec::new(), Vec::new());
 	for h in a["hops"].split(',') {
@@ -591,7 +593,7 @@ fn do_rcpt(a: &HashMap<String, String>) -> String {
 			&nodes[n - k],
 			scid[n - k],
 			bpath.payinfo.fee_base_msat as u64,
-			bpath.payinfo.cltv_expiry_delta as u32,
+			bpath.payinfo.cltv_expiry_delta as u32 + excess,
 		));
 		for h in bpath.blinded_hops() {
 			enc_tlvs_json.push(js(&hex(&h.encrypted_payload)));
@@ -601,7 +603,7 @@ fn do_rcpt(a: &HashMap<String, String>) -> String {
 			trampoline_hops: vec![],
 			hops: bpath.blinded_hops().to_vec(),
 			blinding_point: bpath.blinding_point(),
-			excess_final_cltv_expiry_delta: 0,
+			excess_final_cltv_expiry_delta: excess,
 			final_value_msat: final_value,
 		});
 	}
@@ -730,7 +732,8 @@ fn do_rcpt(a: &HashMap<String, String>) -> String {
 		};
 		let blinded_hop = k > 0 && i >= n - k;
 		let (want_amt, want_cltv) = if i + 1 == m {
-			(final_value, if k > 0 { height } else { height + cltv[n - 1] })
+			// what the ROUTE says the recipient is told: blinded: current height + excess; else height + final delta
+			(final_value, if k > 0 { height + excess } else { height + cltv[n - 1] })
 		} else if blinded_hop {
 			(in_amt - fee[i], in_cltv - cltv[i])
 		} else {
@@ -941,6 +944,16 @@ fn do_peel(a: &HashMap<String, String>) -> String {
 	format!("{{\"kind\":\"peel\",\"res\":{}}}", js(&r))
 }
 
+/// `persist=<all|-|i,j,..>`: the hops at which the failure / attribution data is written and read back
+/// (a node restart between receiving and relaying)
+fn persists(a: &HashMap<String, String>, hop: usize) -> bool {
+	match a.get("persist").map(|s| s.as_str()) {
+		None | Some("-") => false,
+		Some("all") => true,
+		Some(l) => l.split(',').any(|x| x.parse::<usize>() == Ok(hop)),
+	}
+}
+
 fn parse_path(a: &HashMap<String, String>) -> (Vec<Node>, Path) {
 	let mut nodes = Vec::new();
 	let mut hops = Vec::new();
@@ -1022,15 +1035,28 @@ fn do_fail(a: &HashMap<String, String>) -> String {
 	let mut judge: Vec<String> = Vec::new();
 	let mut stages = Vec::new();
 	let (mut d, mut at_data) = vh::build_failure(&keys[at].shared_secret, code, &data, holds[at]);
+	if holds[at] == 0 {
+		// the way ChannelManager originates a failure (HTLCFailReason::Reason, zero hold time), optionally persisted
+		let via = vh::local_failure_via_reason(&keys[at].shared_secret, None, code, data.clone(), persists(a, at));
+		if via != (d.clone(), at_data.clone()) {
+			judge.push(js("HTLCFailReason::Reason (written and read back) does not produce build_failure_packet's packet"));
+		}
+	}
 	stages.push(js(&format!("{}:{}", hex(&d), at_data.as_ref().map(|x| hex(x)).unwrap_or("-".into()))));
 	for j in (0..at).rev() {
-		let via = vh::wrap_failure_via_reason(&keys[j].shared_secret, d.clone(), at_data.clone(), holds[j]);
+		// over the wire to hop j ...
+		let (dw, aw) = vh::fail_msg_roundtrip(d.clone(), at_data.clone());
+		if (dw.clone(), aw.clone()) != (d.clone(), at_data.clone()) {
+			judge.push(js("update_fail_htlc does not carry the failure unchanged"));
+		}
+		// ... which relays it (possibly after a restart)
+		let via = vh::wrap_failure_via_reason(&keys[j].shared_secret, dw, aw, holds[j], persists(a, j));
 		let (d2, a2) = vh::wrap_failure(&keys[j].shared_secret, d, at_data, holds[j]);
 		if via != (d2.clone(), a2.clone()) {
-			judge.push(js("get_encrypted_failure_packet differs from process_failure_packet + crypt_failure_packet"));
+			judge.push(format!("\"hop {}: get_encrypted_failure_packet (persisted: {}) differs from process_failure_packet + crypt_failure_packet\"", j, persists(a, j)));
 		}
-		d = d2;
-		at_data = a2;
+		d = via.0;
+		at_data = via.1;
 		stages.push(js(&format!("{}:{}", hex(&d), at_data.as_ref().map(|x| hex(x)).unwrap_or("-".into()))));
 	}
 	let cap = CapLog::new();
@@ -1143,7 +1169,11 @@ fn do_failb(a: &HashMap<String, String>) -> String {
 	stages.push(format!("{{\"len\":{},\"attr\":{},\"wire\":{}}}", d.len(), at_data.is_some(), w0));
 	let built_with_attr = at_data.is_some();
 	for j in (0..at).rev() {
-		let (d2, a2) = vh::wrap_failure_via_reason(&keys[j].shared_secret, d, at_data, holds[j]);
+		let (dw, aw) = vh::fail_msg_roundtrip(d.clone(), at_data.clone());
+		if (dw.clone(), aw.clone()) != (d.clone(), at_data.clone()) {
+			judge.push(js("update_fail_htlc does not carry the failure unchanged"));
+		}
+		let (d2, a2) = vh::wrap_failure_via_reason(&keys[j].shared_secret, dw, aw, holds[j], persists(a, j));
 		d = d2;
 		at_data = a2;
 		let (w, h) = wire(&d, &at_data);
@@ -1210,7 +1240,14 @@ fn do_fulfill(a: &HashMap<String, String>) -> String {
 	let mut stages = Vec::new();
 	let mut cur: Option<Vec<u8>> = None;
 	for j in (0..n).rev() {
-		let next = vh::fulfill_attribution(cur, &keys[j].shared_secret, holds[j]);
+		// what arrived over the wire, kept across a restart while the claim is pending, then processed
+		let arrived = vh::fulfill_msg_roundtrip(cur.clone());
+		if arrived != cur {
+			judge.push(js("update_fulfill_htlc does not carry the attribution data unchanged"));
+		}
+		let kept = if persists(a, j) { arrived.map(vh::attribution_roundtrip) } else { arrived };
+		let next = vh::fulfill_attribution(kept, &keys[j].shared_secret, holds[j]);
+		let next = if persists(a, j) { vh::attribution_roundtrip(next) } else { next };
 		stages.push(js(&hex(&next)));
 		cur = Some(next);
 	}
